@@ -274,19 +274,27 @@ def clearD (v : SVec) (d : Nat) : Except Fault (SVec × Tr × Bool) := do
 
 `b` = element constructions of this call that still succeed, `al` = does
 `alloc.allocate` succeed (`false`: `std::bad_alloc`).  The code after the repair
-of this round: `create_buffer` / `operator=` count `m_size` up while they
-construct, the constructor `unbounded_array(size_t)` delegates to
-`unbounded_array()` so that the destructor runs when its body throws. -/
+of this round: while `create_buffer` / `operator=` construct into the fresh
+block a `construct_guard` counts the elements; when a constructor throws, its
+destructor destroys them again (`while (done > 0) m_data[--done].~T();` — the
+order inside one call is not observable per slot), releases the block and
+leaves the array empty.  `unbounded_array(size_t)` is `{ create_buffer(sz); }`
+on a default-initialised object: when it throws there is no object and nothing
+is left behind. -/
 
-/-- `create_buffer(size)`: `m_data = allocate(size); m_size = 0;
-    for (i < size) { new (m_data + i) T(); ++m_size; }` -/
+/-- `create_buffer(size)`: `m_data = allocate(size); m_size = size; guard;
+    for (; done < size; ++done) new (m_data + done) T();` -/
 def uCreateX (n : Nat) (b : Nat) (al : Bool) : Except Fault (UArr × Tr × Bool) :=
   if !al then .ok (⟨none, 0⟩, [], true)
   else do
     let (s, tr, k, t) ← valueInitLoopX n 0 (rawStore n) b
-    pure (⟨some s, k⟩, tr, t)
+    if t then do
+      let (_, tr2) ← destroyLoop k 0 s
+      pure (⟨none, 0⟩, tr ++ tr2, true)
+    else pure (⟨some s, n⟩, tr, false)
 
-/-- `create_buffer` as it was: `m_size = size` BEFORE the loop -/
+/-- `create_buffer` as it was: no guard — the exception leaves `m_size = size`
+    over a block whose slots from `b` on are raw storage -/
 def uCreateXOrig (n : Nat) (b : Nat) : Except Fault (UArr × Tr × Bool) := do
   let (s, tr, _, t) ← valueInitLoopX n 0 (rawStore n) b
   pure (⟨some s, n⟩, tr, t)
@@ -302,23 +310,81 @@ def uResizeXOrig (a : UArr) (n : Nat) (b : Nat) : Except Fault (UArr × Tr × Bo
   let (x, tr2, t) ← uCreateXOrig n b
   pure (x, tr1 ++ tr2, t)
 
-/-- `operator=(const&)`: `invalidate(); m_data = allocate(oth.size());
-    for (ref : oth) { new (m_data + m_size) T(ref); ++m_size; }` -/
+/-- `operator=(const&)`: `invalidate(); m_data = allocate(oth.size()); m_size = oth.size(); guard;
+    for (ref : oth) { new (m_data + done) T(ref); ++done; }` -/
 def uAssignX (a o : UArr) (b : Nat) (al : Bool) : Except Fault (UArr × Tr × Bool) := do
   let (_, tr1) ← uInvalidate a
   if !al then pure (⟨none, 0⟩, tr1, true)
   else do
     let (s, tr2, k, t) ← copyLoopX o.slots o.size 0 (rawStore o.size) b
-    pure (⟨some s, k⟩, tr1 ++ tr2, t)
+    if t then do
+      let (_, tr3) ← destroyLoop k 0 s
+      pure (⟨none, 0⟩, tr1 ++ tr2 ++ tr3, true)
+    else pure (⟨some s, o.size⟩, tr1 ++ tr2, false)
 
-/-- `unbounded_array(size_t sz) : unbounded_array() { create_buffer(sz); }` — when the
-    body throws the destructor of the (complete, empty-constructed) object runs:
-    no object, nothing constructed is left -/
+/-- `unbounded_array(size_t sz) { create_buffer(sz); }` — when `create_buffer` throws it
+    has cleaned up after itself; the exception leaves the constructor: no object -/
 def uCtorX (n : Nat) (b : Nat) (al : Bool) : Except Fault (Option UArr × Tr × Bool) := do
   let (x, tr, t) ← uCreateX n b al
-  if t then do
-    let (_, tr2) ← uInvalidate x
-    pure (none, tr ++ tr2, true)
-  else pure (some x, tr, false)
+  if t then pure (none, tr, true) else pure (some x, tr, false)
+
+/-- the constructor as it was: `: m_data(alloc.allocate(sz)), m_size(sz) { for (…) new (m_data + i) T(); }` —
+    the exception leaves a constructor of an incomplete object, no destructor runs: the elements constructed
+    so far (and the block) are lost -/
+def uCtorXOrig (n : Nat) (b : Nat) : Except Fault (Option UArr × Tr × Bool) := do
+  let (s, tr, _, t) ← valueInitLoopX n 0 (rawStore n) b
+  if t then pure (none, tr, true) else pure (some ⟨some s, n⟩, tr, false)
+
+/-- `unbounded_array(const T *data, size_t sz) : unbounded_array(sz) { std::copy(data, data + sz, m_data); }` —
+    the delegated-to constructor may throw (no object then); the assignments of `std::copy` do not -/
+def uFromPtrX (src : List Nat) (sz : Nat) (b : Nat) (al : Bool) : Except Fault (Option UArr × Tr × Bool) := do
+  let (x, tr1, t) ← uCtorX sz b al
+  match x with
+  | none => pure (none, tr1, t)
+  | some a => do
+      let (s, tr2) ← uCopyIn src sz 0 a.slots
+      pure (some ⟨some s, sz⟩, tr1 ++ tr2, false)
+
+/-- copy constructor: `unbounded_array(oth.data(), oth.size())` -/
+def uCopyCtorX (o : UArr) (b : Nat) (al : Bool) : Except Fault (Option UArr × Tr × Bool) := do
+  let (x, tr1, t) ← uCtorX o.size b al
+  match x with
+  | none => pure (none, tr1, t)
+  | some a => do
+      let (s, tr2) ← uCopyBlk o.slots o.size 0 a.slots
+      pure (some ⟨some s, o.size⟩, tr1 ++ tr2, false)
+
+/-- one operation of the storage-level machine with a throw point; `none` = outside the contract
+    (also: a throw point on an operation that neither allocates nor constructs) -/
+def ustepSX (K : Nat) (m : URegsS) (op : UOp) (b : Nat) (al : Bool) : Except Fault (Option (URegsS × Bool)) :=
+  match op with
+  | .new r n => match decide (r < K), m r with
+      | true, none => do
+          let (a, _, t) ← uCtorX n b al
+          pure (some (setUS m r a, t))
+      | _, _ => .ok none
+  | .from r xs => match decide (r < K), m r with
+      | true, none => do
+          let (a, _, t) ← uFromPtrX xs xs.length b al
+          pure (some (setUS m r a, t))
+      | _, _ => .ok none
+  | .copy r s => match decide (r < K ∧ s < K), m r, m s with
+      | true, none, some o => do
+          let (a, _, t) ← uCopyCtorX o b al
+          pure (some (setUS m r a, t))
+      | _, _, _ => .ok none
+  | .assign r s => match decide (r < K ∧ s < K), m r, m s with
+      | true, some a, some o =>
+          if r = s then .ok (some (m, false))
+          else do
+            let (a', _, t) ← uAssignX a o b al
+            pure (some (setUS m r (some a'), t))
+      | _, _, _ => .ok none
+  | .resize r n => match decide (r < K), m r with
+      | true, some a => do
+          let (a', _, t) ← uResizeX a n b al
+          pure (some (setUS m r (some a'), t))
+      | _, _ => .ok none
+  | _ => .ok none
 
 end Igris.C14
